@@ -17,6 +17,7 @@ M64 = (1 << 64) - 1
 
 
 def pre(ctx):
+    _genlimb_regen(ctx)
     import xlate_arith
     try:
         t = xlate_arith.translate(ctx.get('REPO', '/repo') + '/ff/src/biginteger/arithmetic.rs')
@@ -241,3 +242,15 @@ TRUSTED = ['T-leaf translator lib/xlate_arith.py (its output GenArith.v is re-pr
            'num-bigint (decimal parse/print, BigUint byte conversion) is modelled by arbitrary-precision Z, not verified']
 ASSUMPTIONS = ['default features, x86-64, no asm feature (the portable branches of adc/sbb/mul2 are the ones modelled)',
                'loop `while n >= 64 { n -= 64 }` of the shifts is modelled by its closed form n / 64 iterations']
+
+# T-limb translator (lib/xlate_limb.py): coq/GenLimb/GenLimb.v is regenerated from the working tree's source text before
+# the Coq build; Props/GenLimb.v (generated per-N definitions = the list models + composed corollaries) is a strict obligation
+STRICT_PROP_FILES = ['GenLimb']
+
+
+def _genlimb_regen(ctx):
+    import importlib.util, os
+    sp = importlib.util.spec_from_file_location('genlimb_pre', os.path.join(ctx['ROOT'], 'props', 'GenLimb', 'pre.py'))
+    m = importlib.util.module_from_spec(sp); sp.loader.exec_module(m)
+    m.regen(ctx)
+
